@@ -5,8 +5,9 @@ import RsslVerif.Spec.CPre
 # Lemmas for C11, part 4: the composed model (`Model.CondFile`)
 
 * tokens without identifiers go through both macro loops unchanged (`applyMacros_noIds`, `topLoop_noIds`);
-* what one directive line of an included file does to the **shared** condition chain
-  (`include_endif`, `include_else`, `include_ifdef`);
+* every file works above its own base: `Above`, `runStream_restores`, `includeFile_restores`; what one
+  directive line of an included file can *not* do to the includer's blocks (`include_endif`, `include_else`,
+  `include_ifdef`);
 * the `defined` operand is protected (`topLoop_defined_step`).
 -/
 namespace RsslVerif.Lemmas.CondFile
@@ -63,7 +64,232 @@ theorem topLoop_noIds (env : List Entry) (toks : List PTok) (h : noIds toks = tr
   · simp [findSingleD, SearchPos.start, scanFromD_noIds _ _ _ _ _ h]
   · rfl
 
-/-! ### one-line headers and the shared chain -/
+/-! ### every file's conditional directives balance on their own (fix 115a619)
+
+`Above ch0 st` is the invariant of the token loop of one file; `runStream_restores` / `includeFile_restores`
+conclude that a successfully processed file leaves the includer's chain exactly as it found it. -/
+
+/-- while a file is processed, the blocks `ch0` that were open at its start stay at the bottom of the stack,
+    untouched, and the file base is their number -/
+def Above (ch0 : List Block) (st : FState) : Prop := ∃ pre, st.chain = pre ++ ch0 ∧ st.base = ch0.length
+
+/-- the processing of an included file hands chain and file base back as it received them -/
+def IncOk (inc : String → FState → Except RsslVerif.Model.CondFile.Err FState) : Prop :=
+  ∀ n s s', inc n s = .ok s' → s'.chain = s.chain ∧ s'.base = s.base
+
+theorem chainSwitch_above (ch0 pre : List Block) (a e : Bool) (ch' : List Block)
+    (h : chainSwitch (pre ++ ch0) ch0.length a e = .ok ch') : ∃ pre', ch' = pre' ++ ch0 := by
+  unfold chainSwitch at h
+  cases pre with
+  | nil => simp at h
+  | cons top p =>
+    simp only [List.cons_append, List.length_cons, List.length_append] at h
+    split at h
+    · omega
+    · split at h
+      · omega
+      · split at h
+        · cases h
+        · cases h; exact ⟨_ :: p, rfl⟩
+
+theorem chainPop_above (ch0 pre : List Block) (ch' : List Block)
+    (h : chainPop (pre ++ ch0) ch0.length = .ok ch') : ∃ pre', ch' = pre' ++ ch0 := by
+  unfold chainPop at h
+  cases pre with
+  | nil => simp at h
+  | cons top p =>
+    simp only [List.cons_append, List.length_cons, List.length_append, List.tail_cons] at h
+    split at h
+    · cases h; exact ⟨p, rfl⟩
+    · cases h
+
+theorem exec_above (inc) (hinc : IncOk inc) (cur : String) (ch0 : List Block) (st st' : FState) (name : String)
+    (cmd : List PTok) (ha : Above ch0 st) (h : exec inc cur st name cmd = .ok st') : Above ch0 st' := by
+  obtain ⟨pre, hch, hb⟩ := ha
+  unfold exec at h
+  by_cases n1 : name = "include"
+  · rw [if_pos n1] at h
+    split at h
+    · split at h
+      · cases h
+      · split at h
+        · cases h
+        · split at h
+          · cases h
+          · rename_i st1 hst1
+            cases h
+            obtain ⟨h1, h2⟩ := hinc _ _ _ hst1
+            exact ⟨pre, by simpa [h1] using hch, by simpa [h2] using hb⟩
+    · cases h
+  rw [if_neg n1] at h
+  by_cases n2 : name = "ifdef" ∨ name = "ifndef"
+  · rw [if_pos n2] at h
+    split at h
+    · cases h; exact ⟨_ :: pre, by rw [hch]; rfl, hb⟩
+    · cases h
+  rw [if_neg n2] at h
+  by_cases n3 : name = "if"
+  · rw [if_pos n3] at h
+    split at h
+    · cases h
+    · cases h; exact ⟨_ :: pre, by rw [hch]; rfl, hb⟩
+  rw [if_neg n3] at h
+  by_cases n4 : name = "elif"
+  · rw [if_pos n4] at h
+    split at h
+    · cases h
+    · split at h
+      · cases h
+      · rename_i ch' hsw
+        cases h
+        rw [hch, hb] at hsw
+        obtain ⟨pre', hp⟩ := chainSwitch_above ch0 pre _ _ _ hsw
+        exact ⟨pre', hp, hb⟩
+  rw [if_neg n4] at h
+  by_cases n5 : name = "else"
+  · rw [if_pos n5] at h
+    split at h
+    · split at h
+      · cases h
+      · rename_i ch' hsw
+        cases h
+        rw [hch, hb] at hsw
+        obtain ⟨pre', hp⟩ := chainSwitch_above ch0 pre _ _ _ hsw
+        exact ⟨pre', hp, hb⟩
+    · cases h
+  rw [if_neg n5] at h
+  by_cases n6 : name = "endif"
+  · rw [if_pos n6] at h
+    split at h
+    · split at h
+      · cases h
+      · rename_i ch' hsw
+        cases h
+        rw [hch, hb] at hsw
+        obtain ⟨pre', hp⟩ := chainPop_above ch0 pre _ hsw
+        exact ⟨pre', hp, hb⟩
+    · cases h
+  rw [if_neg n6] at h
+  by_cases n7 : name = "define"
+  · rw [if_pos n7] at h
+    split at h
+    · cases h
+    · cases h; exact ⟨pre, hch, hb⟩
+  rw [if_neg n7] at h
+  by_cases n8 : name = "undef"
+  · rw [if_pos n8] at h
+    split at h
+    · cases h
+    · cases h; exact ⟨pre, hch, hb⟩
+  rw [if_neg n8] at h
+  by_cases n9 : name = "pragma"
+  · rw [if_pos n9] at h
+    split at h
+    · split at h
+      · cases h; exact ⟨pre, hch, hb⟩
+      · split at h
+        · cases h; exact ⟨pre, hch, hb⟩
+        · cases h
+    · cases h
+  rw [if_neg n9] at h
+  cases h
+
+theorem flush_above (ch0 : List Block) (st st' : FState) (act : List PTok) (ha : Above ch0 st)
+    (h : flush st act = .ok st') : Above ch0 st' := by
+  unfold flush at h
+  split at h
+  · split at h
+    · cases h
+    · cases h; exact ha
+  · cases h; exact ha
+
+theorem command_above (inc) (hinc : IncOk inc) (cur : String) (ch0 : List Block) (st st' : FState)
+    (cmd : List PTok) (ha : Above ch0 st) (h : command inc cur st cmd = .ok st') : Above ch0 st' := by
+  have push : ∀ c, Above ch0 { st with chain := newBlock c :: st.chain } := by
+    intro c
+    obtain ⟨pre, hch, hb⟩ := ha
+    exact ⟨newBlock c :: pre, by simp [hch], hb⟩
+  unfold command at h
+  split at h
+  · -- a directive without a name
+    unfold gated at h
+    split at h
+    · cases h
+    · split at h
+      · cases h; exact ha
+      · cases h; exact push _
+      · cases h
+  · unfold gated at h
+    split at h
+    · exact exec_above inc hinc cur ch0 st st' _ _ ha h
+    · split at h
+      · cases h; exact ha
+      · cases h; exact push _
+      · exact exec_above inc hinc cur ch0 st st' _ _ ha h
+
+theorem fileLoop_above (inc) (hinc : IncOk inc) (cur : String) (ch0 : List Block) :
+    ∀ (items : List SItem) (st : FState) (ps : PState) (act : List PTok) (st' : FState) (act' : List PTok),
+      Above ch0 st → fileLoop inc cur st ps act items = .ok (st', act') → Above ch0 st'
+  | [], st, ps, act, st', act', ha, h => by
+    simp only [fileLoop] at h; cases h; exact ha
+  | .lexError :: _, st, ps, act, st', act', ha, h => by simp [fileLoop] at h
+  | .tok t :: rest, st, ps, act, st', act', ha, h => by
+    rw [fileLoop] at h
+    split at h
+    · split at h
+      · split at h
+        · cases h
+        · rename_i st1 hc
+          exact fileLoop_above inc hinc cur ch0 rest _ _ _ _ _ (command_above inc hinc cur ch0 st st1 act ha hc) h
+      · exact fileLoop_above inc hinc cur ch0 rest _ _ _ _ _ ha h
+    · split at h
+      · split at h
+        · cases h
+        · rename_i st1 hf
+          exact fileLoop_above inc hinc cur ch0 rest _ _ _ _ _ (flush_above ch0 st st1 _ ha hf) h
+      · split at h
+        · exact fileLoop_above inc hinc cur ch0 rest _ _ _ _ _ ha h
+        · split at h
+          · exact fileLoop_above inc hinc cur ch0 rest _ _ _ _ _ ha h
+          · exact fileLoop_above inc hinc cur ch0 rest _ _ _ _ _ ha h
+
+/-- `preprocess_included_file` hands the chain and the file base back exactly as it received them -/
+theorem runStream_restores (inc) (hinc : IncOk inc) (cur : String) (st st' : FState) (items : List SItem)
+    (h : runStream inc cur st items = .ok st') : st'.chain = st.chain ∧ st'.base = st.base := by
+  unfold runStream at h
+  split at h
+  · cases h
+  · rename_i st1 act hl
+    have h1 : Above st.chain st1 :=
+      fileLoop_above inc hinc cur st.chain items _ _ _ _ _ ⟨[], by simp, rfl⟩ hl
+    split at h
+    · cases h
+    · rename_i st2 hf
+      obtain ⟨pre, hch, hb⟩ := flush_above st.chain st1 st2 act h1 hf
+      split at h
+      · cases h
+      · rename_i hlen
+        cases h
+        have : pre = [] := by
+          have hl2 : st2.chain.length = st2.base := by simpa using hlen
+          rw [hch, hb, List.length_append] at hl2
+          exact List.eq_nil_of_length_eq_zero (by omega)
+        simp [hch, this]
+
+theorem includeFile_restores (h : Handler) : ∀ (fuel : Nat), IncOk (includeFile h fuel)
+  | 0 => by intro n s s' hs; simp [includeFile] at hs
+  | fuel + 1 => by
+    intro n s s' hs
+    have ih := includeFile_restores h fuel
+    simp only [includeFile] at hs
+    split at hs
+    · cases hs
+    · split at hs
+      · exact runStream_restores _ ih n s s' _ hs
+      · exact runStream_restores _ ih n s s' _ hs
+
+
+/-! ### one-line headers: what an included file can *not* do to the includer's blocks -/
 
 def T (t : Tok) : SItem := .tok ⟨t, true⟩
 
@@ -78,30 +304,31 @@ theorem gate_endif : gate "endif" = .notGated := by decide
 theorem gate_else : gate "else" = .notGated := by decide
 theorem gate_ifdef : gate "ifdef" = .skipPushes .DisabledInner := by decide
 
-/-- an `#endif` that is the whole content of an included file pops the level the **includer** opened -/
-theorem include_endif (h : Handler) (fuel : Nat) (name : String) (st : FState) (c : CS) (ch : List CS)
-    (hf : h name = some hdrEndif) (ho : st.once.contains name = false) (hc : st.chain = c :: ch) :
-    includeFile h (fuel + 1) name st = .ok { st with chain := ch } := by
+/-- an `#endif` that is the whole content of an included file does not reach the block the includer opened:
+    it is an `#endif` without `#if` -/
+theorem include_endif (h : Handler) (fuel : Nat) (name : String) (st : FState)
+    (hf : h name = some hdrEndif) (ho : st.once.contains name = false) :
+    includeFile h (fuel + 1) name st = .error (.chain .EndIfNotMatched) := by
   simp only [includeFile, hf, ho, runStream, hdrEndif, T, fileLoop, isHash, dropTrailingBlanks, flush_nil]
-  simp [command, commandName, exec, gate_endif, trimStart, hc, flush_nil, Tok.isWhitespace]
+  simp [command, commandName, gated, exec, gate_endif, trimStart, chainPop, popEmptyErr, Tok.isWhitespace, flush_nil]
 
-/-- an `#else` that is the whole content of an included file switches the includer's if-section -/
-theorem include_else (h : Handler) (fuel : Nat) (name : String) (st : FState) (c : CS) (ch : List CS)
-    (hf : h name = some hdrElse) (ho : st.once.contains name = false) (hc : st.chain = c :: ch) :
-    includeFile h (fuel + 1) name st = .ok { st with chain := c.switch elseSwitchArg :: ch } := by
+/-- an `#else` that is the whole content of an included file is an `#else` without `#if`, whatever the
+    includer has open -/
+theorem include_else (h : Handler) (fuel : Nat) (name : String) (st : FState)
+    (hf : h name = some hdrElse) (ho : st.once.contains name = false) :
+    includeFile h (fuel + 1) name st = .error (.chain .ElseNotMatched) := by
   simp only [includeFile, hf, ho, runStream, hdrElse, T, fileLoop, isHash, dropTrailingBlanks, flush_nil]
-  simp [command, commandName, exec, gate_else, trimStart, hc, flush_nil, Tok.isWhitespace]
+  simp [command, commandName, gated, exec, gate_else, trimStart, chainSwitch, switchEmptyErr, Tok.isWhitespace, flush_nil]
 
-/-- an `#ifdef X` that is the whole content of an included file leaves its level open for the includer:
-    the end of the included file is not checked -/
+/-- an `#ifdef X` that is the whole content of an included file is an unterminated if-section: the end of the
+    included file is checked -/
 theorem include_ifdef (h : Handler) (fuel : Nat) (name x : String) (st : FState)
     (hf : h name = some (hdrIfdef x)) (ho : st.once.contains name = false) :
-    includeFile h (fuel + 1) name st = .ok { st with chain :=
-      (if active st.chain then pushState (st.macros.any (fun m => m.name == x)) else .DisabledInner) :: st.chain } := by
+    includeFile h (fuel + 1) name st = .error (.chain .ConditionChainNotFinished) := by
   simp only [includeFile, hf, ho, runStream, hdrIfdef, T, fileLoop, isHash, dropTrailingBlanks, flush_nil]
-  simp [command, commandName, exec, gate_ifdef, trim, trimStart, trimEnd, flush_nil, Tok.isWhitespace, Tok.isBlank,
-    List.dropWhile]
-  by_cases ha : active st.chain = true <;> simp [ha, flush_nil]
+  simp [command, commandName, gated, exec, gate_ifdef, trim, trimStart, trimEnd, flush_nil, Tok.isWhitespace,
+    Tok.isBlank, List.dropWhile]
+  by_cases ha : active st.chain = true <;> simp [ha, flush_nil, fileUnfinishedErr]
 
 theorem gate_include : gate "include" = .skipNoEffect := by decide
 theorem gate_ifndef : gate "ifndef" = .skipPushes .DisabledInner := by decide
@@ -125,10 +352,10 @@ def shapeOfLine (l : List Tok) : RsslVerif.Spec.CPre.Shape :=
   | .punct "#" :: .id "endif" :: _ => .endif
   | _ => .other
 
-/-- ISO C 6.10.1 / 6.10.2: an included file is a sequence of *groups*; each file must pass the nesting
+/-- ISO C 6.10.1 / 6.10.2: an included file is a sequence of *groups*; each file must pass the grammar
     scan by itself -/
 def fileBalanced (items : List SItem) : Bool :=
-  match RsslVerif.Spec.CPre.scan 0 ((streamLines items []).map shapeOfLine) with
+  match RsslVerif.Spec.CPre.scanC [] ((streamLines items []).map shapeOfLine) with
   | .ok _ => true
   | .error _ => false
 
@@ -140,20 +367,20 @@ def wMainA : List SItem :=
 def wHdrA : List SItem :=
   [T (.punct "#"), T (.id "ifndef"), T .ws, T (.id "A"), T .endline, T (.int "2"), T .endline]
 
-/-- **Negation witness (end to end).**  `h.h` opens an if-section and never closes it, `main.rssl` closes it:
-    neither file is balanced (C rejects both: "unterminated #ifndef", "#endif without #if"), yet the whole
-    run is accepted and yields `2 1`.  Replayed on the real preprocessor by `corpus/C11.txt`
-    (known finding `unterminated-in-include accepted`). -/
+/-- **End to end (was a negation witness before fix 115a619).**  `h.h` opens an if-section and never closes
+    it, `main.rssl` would close it: neither file is balanced (C rejects both: "unterminated #ifndef", "#endif
+    without #if"), and the run is rejected at the end of `h.h` with `ConditionChainNotFinished`.  Replayed on
+    the real preprocessor by `corpus/C11.txt` (fixed finding `unterminated-in-include accepted`). -/
 theorem witnessA :
     fileBalanced wHdrA = false ∧ fileBalanced wMainA = false ∧
     preprocessAll (fun n => if n = "main.rssl" then some wMainA else if n = "h.h" then some wHdrA else none)
-      [] "main.rssl" = .ok [⟨.int "2", true⟩, ⟨.endline, true⟩, ⟨.int "1", true⟩, ⟨.endline, true⟩] := by
+      [] "main.rssl" = .error (.chain .ConditionChainNotFinished) := by
   refine ⟨by decide, by decide, ?_⟩
   have e : includeFuel = 201 + 1 := rfl
   simp [preprocessAll, wMainA, wHdrA, initialMacros, runStream, T, fileLoop, isHash, dropTrailingBlanks,
-    e, includeFile, command, commandName, exec, trim, trimStart, trimEnd,
+    e, includeFile, command, commandName, gated, exec, trim, trimStart, trimEnd,
     Tok.isWhitespace, Tok.isBlank, List.dropWhile, includeName, maxIncludeDepth, flush_nil, flush_noIds, noIds,
-    active, activeState, pushState]
+    active, activeState, pushState, newBlock, fileUnfinishedErr]
 
 /-- `main.rssl` = `#ifndef A⏎1⏎#include "h.h"⏎2⏎#endif⏎` -/
 def wMainB : List SItem :=
@@ -161,19 +388,18 @@ def wMainB : List SItem :=
    T (.punct "#"), T (.id "include"), T .ws, T (.punct "\"h.h\""), T .endline,
    T (.int "2"), T .endline, T (.punct "#"), T (.id "endif"), T .endline]
 
-/-- **Negation witness.**  `h.h` = `#else⏎` has an `#else` without an `#if` (C rejects); included from inside
-    the selected group of `main.rssl` it ends that group: `2` is silently dropped.  Known finding
-    `unmatched-in-include accepted`. -/
+/-- **End to end (was a negation witness before fix 115a619).**  `h.h` = `#else⏎` has an `#else` without an
+    `#if` (C rejects); included from inside the selected group of `main.rssl` it is rejected with
+    `ElseNotMatched` instead of ending that group.  Fixed finding `unmatched-in-include accepted`. -/
 theorem witnessB :
     fileBalanced hdrElse = false ∧
     preprocessAll (fun n => if n = "main.rssl" then some wMainB else if n = "h.h" then some hdrElse else none)
-      [] "main.rssl" = .ok [⟨.int "1", true⟩, ⟨.endline, true⟩] := by
+      [] "main.rssl" = .error (.chain .ElseNotMatched) := by
   refine ⟨by decide, ?_⟩
   have e : includeFuel = 201 + 1 := rfl
   simp [preprocessAll, wMainB, hdrElse, initialMacros, runStream, T, fileLoop, isHash, dropTrailingBlanks,
-    e, includeFile, command, commandName, exec, trim, trimStart, trimEnd, gate_include, gate_endif, gate_else, flush_nil,
-    Tok.isWhitespace, Tok.isBlank, List.dropWhile, includeName, maxIncludeDepth, flush_nil, flush_noIds, noIds,
-    active, activeState, pushState, CS.switch, elseSwitchArg]
-
+    e, includeFile, command, commandName, gated, exec, trim, trimStart, trimEnd,
+    flush_nil, Tok.isWhitespace, Tok.isBlank, List.dropWhile, includeName, maxIncludeDepth, flush_noIds, noIds,
+    active, activeState, pushState, newBlock, chainSwitch, switchEmptyErr]
 
 end RsslVerif.Lemmas.CondFile
